@@ -16,6 +16,7 @@ import (
 	"verif/mc"
 	"verif/vrt"
 	"verif/vrt/vctx"
+	"verif/vrt/vtime"
 )
 
 // C09 — sampling windows: the algorithm sees each window once, aggregated exactly. Mode S,
@@ -61,8 +62,9 @@ func (d delivered) String() string { return fmt.Sprintf("@%d%s", d.at, d.s) }
 type c09Cfg struct {
 	minWin, maxWin int64
 	threshold      int64
-	ahead          int // default limiter: how many requests are acquired ahead of the one being completed
-	window         int // window size (0 = 10, the smallest the constructors accept)
+	ahead          int   // default limiter: how many requests are acquired ahead of the one being completed
+	window         int   // window size (0 = 10, the smallest the constructors accept)
+	rtt            int64 // windowed limit: RTT of the default sample (0 = 20 ms)
 }
 
 func (c c09Cfg) win() int {
@@ -72,7 +74,7 @@ func (c c09Cfg) win() int {
 	return c.window
 }
 
-var c09Dev = []string{"default(success,2ms)", "drop", "ignore", "below-threshold", "exactly-threshold", "10x-longer", "overlap(in-flight 2)", "gap(one period)", "drop+gap"}
+var c09Dev = []string{"default(success,2ms)", "drop", "ignore", "below-threshold", "exactly-threshold", "10x-longer", "overlap(in-flight 2)", "gap(one period)", "drop+gap", "drop-below-threshold"}
 
 func c09Default(cfg c09Cfg, hist []int) (got, want []delivered, trace string) {
 	vrt.ManualClock = 1_000_000_000
@@ -131,6 +133,12 @@ func c09Default(cfg c09Cfg, hist []int) (got, want []delivered, trace string) {
 		case 8:
 			vrt.ManualClock += cfg.maxWin
 			outcome = 2
+		case 9:
+			// a drop faster than the threshold still counts: only successful completions are filtered
+			outcome = 2
+			if cfg.ahead == 0 {
+				dur = cfg.threshold - 1
+			}
 		}
 		var extra core.Listener
 		if overlap {
@@ -196,7 +204,7 @@ func c09Default(cfg c09Cfg, hist []int) (got, want []delivered, trace string) {
 
 // ---- part 2: WindowedLimit ----
 
-var c09WDev = []string{"default(success,20ms,in-flight 11)", "drop", "below-threshold", "10x-longer", "in-flight 10", "in-flight 9", "gap(one period)", "drop in-flight 9", "in-flight 30"}
+var c09WDev = []string{"default(success,20ms,in-flight 11)", "drop", "below-threshold", "10x-longer", "in-flight 10", "in-flight 9", "gap(one period)", "drop in-flight 9", "in-flight 30", "drop-below-threshold"}
 
 func c09Windowed(cfg c09Cfg, hist []int) (got, want []delivered, trace string) {
 	rec := &ScriptLimit{Traj: []int{5}}
@@ -209,6 +217,9 @@ func c09Windowed(cfg c09Cfg, hist []int) (got, want []delivered, trace string) {
 	clock := int64(1_000_000_000)
 	for i, d := range hist {
 		rtt := int64(20 * time.Millisecond)
+		if cfg.rtt != 0 {
+			rtt = cfg.rtt
+		}
 		inflight := 11
 		drop := false
 		switch d {
@@ -229,6 +240,10 @@ func c09Windowed(cfg c09Cfg, hist []int) (got, want []delivered, trace string) {
 			inflight = 9
 		case 8:
 			inflight = 30
+		case 9:
+			// the windowed limit discards every sample faster than the threshold, drops included
+			drop = true
+			rtt = cfg.threshold - 1
 		}
 		start := clock
 		before := len(rec.Samples)
@@ -314,7 +329,7 @@ func c09Compare(kind string, devNames []string, hist []int, got, want []delivere
 }
 
 func c09Run(c *Ctx, name string, cfg c09Cfg, devNames []string, db int, run func(c09Cfg, []int) ([]delivered, []delivered, string)) {
-	params := fmt.Sprintf("minWindow=%dms maxWindow=%dms threshold=%dns windowSize=%d acquired-ahead=%d history=26 deviations<=%d of %v", cfg.minWin/1e6, cfg.maxWin/1e6, cfg.threshold, cfg.win(), cfg.ahead, db, devNames[1:])
+	params := fmt.Sprintf("minWindow=%dms maxWindow=%dms threshold=%dns windowSize=%d acquired-ahead=%d default-rtt=%dms history=26 deviations<=%d of %v", cfg.minWin/1e6, cfg.maxWin/1e6, cfg.threshold, cfg.win(), cfg.ahead, cfg.rtt/1e6, db, devNames[1:])
 	if c.replay != nil {
 		if c.replay.Scenario == name && c.replay.Params == params {
 			got, want, _ := run(cfg, c.replay.Choices)
@@ -374,6 +389,9 @@ func c09Run(c *Ctx, name string, cfg c09Cfg, devNames []string, db int, run func
 
 func runC09(c *Ctx) {
 	db := c.Pick(2, 3)
+	for _, v := range []string{"drop", "short-success", "success"} {
+		c.Explore(c09Concurrent(v), mc.Options{PreemptBound: c.Pick(3, -1), NoCache: true})
+	}
 	c09Run(c, "C09/default-limiter", c09Cfg{minWin: 10e6, maxWin: 20e6, threshold: 1, ahead: 0}, c09Dev, 3, c09Default)
 	c09Run(c, "C09/windowed-limit", c09Cfg{minWin: 100e6, maxWin: 200e6, threshold: 1, ahead: 0}, c09WDev, 3, c09Windowed)
 	for _, cfg := range []c09Cfg{{minWin: 10e6, maxWin: 10e6, threshold: 1, ahead: 0}, {minWin: 10e6, maxWin: 40e6, threshold: 1, ahead: 0}, {minWin: 10e6, maxWin: 10e6, threshold: 1e6, ahead: 0}, {minWin: 10e6, maxWin: 40e6, threshold: 1e6, ahead: 0}} {
@@ -384,6 +402,12 @@ func runC09(c *Ctx) {
 			c09Run(c, "C09/default-limiter", cfg, c09Dev, db, c09Default)
 		}
 	}
+	// window periods from the middle (2 x candidate RTT) and the upper (maximum) branch of the clamp
+	c09Run(c, "C09/default-limiter", c09Cfg{minWin: 1e6, maxWin: 10e6, threshold: 1}, c09Dev, db, c09Default)
+	c09Run(c, "C09/default-limiter", c09Cfg{minWin: 1e6, maxWin: 3e6, threshold: 1}, c09Dev, db, c09Default)
+	c09Run(c, "C09/default-limiter", c09Cfg{minWin: 1e6, maxWin: 10e6, threshold: 1, ahead: 12}, c09Dev, db, c09Default)
+	c09Run(c, "C09/windowed-limit", c09Cfg{minWin: 100e6, maxWin: 400e6, threshold: 1, rtt: 80e6}, c09WDev, db, c09Windowed)
+	c09Run(c, "C09/windowed-limit", c09Cfg{minWin: 100e6, maxWin: 120e6, threshold: 1, rtt: 80e6}, c09WDev, db, c09Windowed)
 	// a larger window size: 13 qualifying completions per window (default limiter), closing sample's
 	// in-flight must exceed 12 (windowed limit; its default in-flight of 11 never closes, 30 does)
 	c09Run(c, "C09/default-limiter", c09Cfg{minWin: 10e6, maxWin: 10e6, threshold: 1, window: 12}, c09Dev, db, c09Default)
@@ -391,5 +415,135 @@ func runC09(c *Ctx) {
 	c09Run(c, "C09/windowed-limit", c09Cfg{minWin: 100e6, maxWin: 100e6, threshold: 1, window: 12}, c09WDev, db, c09Windowed)
 	for _, cfg := range []c09Cfg{{minWin: 100e6, maxWin: 100e6, threshold: 1, ahead: 0}, {minWin: 100e6, maxWin: 400e6, threshold: 1, ahead: 0}, {minWin: 100e6, maxWin: 100e6, threshold: 1e6, ahead: 0}, {minWin: 100e6, maxWin: 400e6, threshold: 30e6, ahead: 0}} {
 		c09Run(c, "C09/windowed-limit", cfg, c09WDev, db, c09Windowed)
+	}
+}
+
+// ---- part 3: concurrent completions (Mode T) ----
+
+// c09Completion is one completion as the reference sees it.
+type c09Completion struct {
+	rtt      int64
+	inflight int
+	outcome  int
+	end      int64
+}
+
+// c09RefFold is the reference of the default limiter over completions in a given order.
+func c09RefFold(cs []c09Completion, minWin, maxWin, threshold int64, win int) []SampleRec {
+	var out []SampleRec
+	refMin, refMax, refN, refDrop := int64(math.MaxInt64), 0, 0, false
+	next := int64(0)
+	for _, c := range cs {
+		added := false
+		switch c.outcome {
+		case 0:
+			if c.rtt >= threshold {
+				if c.rtt < refMin {
+					refMin = c.rtt
+				}
+				if c.inflight > refMax {
+					refMax = c.inflight
+				}
+				refN++
+				added = true
+			}
+		case 2:
+			refDrop = true
+			if c.inflight > refMax {
+				refMax = c.inflight
+			}
+			added = true
+		}
+		if added && c.end > next && refMin < math.MaxInt64 && refN > win {
+			out = append(out, SampleRec{0, refMin, refMax, refDrop})
+			w := 2 * refMin
+			if w < minWin {
+				w = minWin
+			}
+			if w > maxWin {
+				w = maxWin
+			}
+			next = c.end + w
+			refMin, refMax, refN, refDrop = math.MaxInt64, 0, 0, false
+		}
+	}
+	return out
+}
+
+// c09Concurrent: ten sequential successes leave the first window one completion short of ready;
+// then completions A (success) and B (variant) run concurrently; then a second window is filled and
+// closed sequentially. Whatever the interleaving, the delegate must have received what the
+// reference fold yields for one of the two orders of A and B: a completion folded concurrently with
+// the closing of a window belongs to that window or to the next one, never to neither.
+func c09Concurrent(variant string) *mc.Scenario {
+	const minWin, maxWin, threshold, win = int64(10e6), int64(10e6), int64(1), 10
+	return &mc.Scenario{
+		Name:   "C09/concurrent-completions",
+		Params: "default limiter, window size 10, 10 sequential successes, then A=success || B=" + variant + ", then 11 sequential successes one period later",
+		Cfg:    vrt.Config{MaxSteps: 4000},
+		Body: func(x *mc.Exec) {
+			rec := &ScriptLimit{Traj: []int{64}}
+			l, err := limiter.NewDefaultLimiter(rec, minWin, maxWin, threshold, win, strategy.NewSimpleStrategy(64), limit.NoopLimitLogger{}, core.EmptyMetricRegistryInstance)
+			if err != nil {
+				panic(err)
+			}
+			ctx := vctx.Background()
+			var hist []c09Completion
+			seq := func(n int) {
+				for i := 0; i < n; i++ {
+					start := vrt.Now()
+					tok, ok := l.Acquire(ctx)
+					if !ok {
+						x.Fail("setup", "acquire refused")
+						return
+					}
+					vtime.Sleep(2 * time.Millisecond)
+					tok.OnSuccess()
+					hist = append(hist, c09Completion{rtt: vrt.Now() - start, inflight: 1, outcome: 0, end: vrt.Now()})
+					vtime.Sleep(time.Millisecond)
+				}
+			}
+			seq(10)
+			// A and B are acquired now and completed concurrently 3 ms (B short: 1 ms) later
+			startA := vrt.Now()
+			tokA, okA := l.Acquire(ctx)
+			if variant == "short-success" {
+				vtime.Sleep(2 * time.Millisecond)
+			}
+			startB := vrt.Now()
+			tokB, okB := l.Acquire(ctx)
+			if !okA || !okB {
+				x.Fail("setup", "acquire refused")
+				return
+			}
+			vtime.Sleep(3*time.Millisecond - time.Duration(startB-startA))
+			end := vrt.Now()
+			a := c09Completion{rtt: end - startA, inflight: 1, outcome: 0, end: end}
+			b := c09Completion{rtt: end - startB, inflight: 2, outcome: 0, end: end}
+			if variant == "drop" {
+				b.outcome = 2
+			}
+			ta := vrt.GoL("A", func() { tokA.OnSuccess() })
+			tb := vrt.GoL("B", func() { complete(tokB, b.outcome) })
+			vrt.Join(ta, tb)
+			mid := len(hist)
+			vtime.Sleep(time.Duration(maxWin))
+			seq(11)
+			var got []SampleRec
+			got = append(got, rec.Samples...)
+			x.Observe("delivered=%v", got)
+			x.MarkConflict()
+			var wants [][]SampleRec
+			for _, order := range [][]c09Completion{{a, b}, {b, a}} {
+				cs := append(append(append([]c09Completion{}, hist[:mid]...), order...), hist[mid:]...)
+				wants = append(wants, c09RefFold(cs, minWin, maxWin, threshold, win))
+			}
+			for _, w := range wants {
+				if fmt.Sprint(w) == fmt.Sprint(got) {
+					return
+				}
+			}
+			x.Fail("default-limiter/concurrent-completion-lost", "the delegate received %v; folding A then B gives %v, B then A gives %v", got, wants[0], wants[1])
+		},
 	}
 }
